@@ -106,6 +106,8 @@ class Run:
                     if mname in missing:
                         files[r] = content
                         missing.discard(mname)
+            for mname in sorted(missing):
+                self.say("NOTE property=%s generated module %s in the import closure has no translator that regenerates it in this run; the committed copy is used" % (self.pid, mname))
         for rel, content in files.items():
             path = os.path.join(LEAN, rel)
             old = open(path).read() if os.path.exists(path) else None
@@ -276,7 +278,7 @@ class Run:
             cur = self.repo_source_hash()
             old = open(hfile).read().strip() if os.path.exists(hfile) else None
             if old != cur:
-                if old is not None:
+                if old is not None or os.path.isdir(os.path.join(self.execd, "target", "debug", "deps")):
                     sh(["cargo", "clean", "--offline", "-p", "compute"], cwd=self.execd, timeout=600)
                     self.say("[cargo] /repo sources changed since the executor library was built: rebuilding it")
         except Exception as e:  # noqa
@@ -400,7 +402,11 @@ def replay_ctx(mod, lines, idx):
             pass
     if idx is None:
         return list(range(min(len(lines), 20000)))
-    return [idx]
+    # default: the request lines of a run are executed in order by ONE executor process (sessions span lines, and state kept between
+    # calls - caches, thread-local scratch, object histories - is part of what the checks observe), so the context of a failure is the
+    # prefix of the batch up to the failing line (capped; the failing line is always the last one)
+    lo = max(0, idx - 20000)
+    return list(range(lo, idx + 1))
 
 
 def execute(run, lines):
@@ -547,7 +553,7 @@ def _main(argv):
         f = new_fails[0]
         ctx = replay_ctx(mod, lines, f.idx)
         path = write_replay(run, "oracle", {
-            "message": f.msg, "key": f.key, "expected": f.expected,
+            "message": f.msg, "key": f.key, "expected": f.expected, "failing_line_is_last_of": len(ctx),
             "lines": [lines[i] for i in ctx],
             "impl": [impl[i] for i in ctx],
             "model": [model_reply_at(mlines, model, i) for i in ctx],
@@ -585,7 +591,7 @@ def _main(argv):
             })
             violations.append((path, ""))
         else:
-            d = diffs[:5]
+            d = diffs[:5] if diffs else replay_ctx(mod, lines, None)[:2000]
             path = write_replay(run, "unproved", {
                 "message": "the property is no longer shown to hold: " +
                            ("proof obligation(s) no longer check: %s. " % "; ".join(n for n, _ in run.proof_alarms[:8]) if run.proof_alarms else "") +
@@ -676,7 +682,9 @@ def _main(argv):
                 "hand-written Lean model of the anchored Rust code, tied by bit-exact differential execution (this run)",
                 "Lean compiled Float arithmetic and glibc libm (shared with the Rust build)",
             ],
-            "theorems": [n for n, _ in run.theorems][:200],
+            "theorems": ([t for t in getattr(mod, "REQUIRED_THEOREMS", []) if t in {n for n, _ in run.theorems}]
+                         + [n for n, _ in run.theorems if n not in set(getattr(mod, "REQUIRED_THEOREMS", []))])[:1500],
+            "required_theorems": len(getattr(mod, "REQUIRED_THEOREMS", [])),
             "axioms_used": sorted({a for _, axs in run.theorems for a in axs}),
             "not_proved": getattr(mod, "NOT_PROVED", []),
             "evaluations": len(lines),
@@ -754,7 +762,8 @@ def main(argv):
     with open(path, "w") as f:
         json.dump({"property": pid, "kind": "unproved", "seed": seed, "tier": tier,
                    "message": "the property is no longer shown to hold: the check could not be carried out on this tree", "detail": detail,
-                   "theorems_or_obligations_failing": [{"name": "check-machinery", "detail": detail}], "lines": []}, f, indent=1)
+                   "theorems_or_obligations_failing": [{"name": "check-machinery", "detail": detail}], "lines": [],
+                   "note": "no request line is attached: the run ended before a verdict; re-run the check itself to reproduce"}, f, indent=1)
     no_build = "--no-build" in argv
     evdir = os.path.join(OUT, "alt-evidence") if (common.ALT or no_build) else EVID
     os.makedirs(evdir, exist_ok=True)
